@@ -164,7 +164,7 @@ i.iter_post("one-short-sleep-per-poll", "log_count('sleep') == 1 and log_count('
 
 # ---------------------------------------------------------------- the factory (C09)
 KEYS = ["context", "timeout", "job_reducers", "result_reducers", "initializer", "initargs", "env"]
-c = M.contract(f"{RPE}.get_reusable_executor", props=["C09"])
+c = M.contract(f"{RPE}.get_reusable_executor", props=["C09", "C15"])   # C15: the reducers given to the factory are the ones the returned executor was built with
 c.param("cls", VClass(RPE))
 c.param("max_workers", T.Opt(T.Int), default=NONE).param("context", T.Ref("Context", nullable=True), default=NONE)
 c.param("timeout", T.Obj, default=VInt(10)).param("kill_workers", T.Bool, default=VBool(False))
